@@ -3,12 +3,12 @@
 (* Validation of what the REAL routers did (harness/funcsB, TestRouter)    *)
 (* against Router.tla.  One ndjson line = one case (a set of registrations)*)
 (* with one run per registration order (and per fresh process in the       *)
-(* thorough tier):                                                         *)
-(*   [tr, regs, runs : Seq([p, order, steps, res])]                        *)
-(* order = the registrations in the order they were attempted, steps[j] =  *)
-(* "ok" | "panic" of attempt j, res[k] = the distinct modules (index into  *)
-(* regs, 0 = no route) that port PortSeq[k] resolved to over the repeated  *)
-(* Route calls of that run.                                                *)
+(* thorough tier):   [tr, regs, runs : Seq([p, o, s, r, u])]               *)
+(*   o  the order, as indices into regs                                    *)
+(*   s  per attempt 1 = accepted, 0 = refused (panic)                      *)
+(*   r  per port of PortSeq the module the first lookup resolved to (index *)
+(*      into regs of the registration that installed it, 0 = no route)     *)
+(*   u  the ports whose repeated lookups disagreed                         *)
 (* C48 clauses assert only what the property states; CONF compares with    *)
 (* the specification's full behaviour (diagnostic).                        *)
 (***************************************************************************)
@@ -22,47 +22,53 @@ VARIABLE l
 
 PortSeq == SetToSortSeq(Ports, LexLess)
 
+OrderOf(ln, run) == [i \in DOMAIN run.o |-> ln.regs[run.o[i]]]
+
 \* the router contents implied by the real accept / refuse results of the first j attempts of a run
-AccAfter(run, j) == SplitOf({ run.order[i] : i \in { x \in 1..j : run.steps[x] = "ok" } })
+AccAfter(ln, run, j) == SplitOf({ ln.regs[run.o[i]] : i \in { x \in 1..j : run.s[x] = 1 } })
 
 IdxOf(regs, r) == IF \E i \in DOMAIN regs : regs[i] = r THEN CHOOSE i \in DOMAIN regs : regs[i] = r ELSE 0
 
 SpecSteps(order) ==
     LET F[i \in 0..Len(order)] ==
             IF i = 0 THEN [S |-> EmptyRouter, out |-> <<>>]
-            ELSE LET a == Add(F[i - 1].S, order[i]) IN [S |-> a.S, out |-> Append(F[i - 1].out, a.res)]
+            ELSE LET a == Add(F[i - 1].S, order[i]) IN [S |-> a.S, out |-> Append(F[i - 1].out, IF a.res = "ok" THEN 1 ELSE 0)]
     IN F[Len(order)].out
 
-RunViol(ln, k) ==
+WellShaped(ln, run) ==
+    /\ Len(run.o) = Len(ln.regs) /\ Len(run.s) = Len(ln.regs) /\ Len(run.r) = Len(PortSeq)
+    /\ { run.o[i] : i \in DOMAIN run.o } = DOMAIN ln.regs
+
+\* monitors of run k; accs[k2] = accepted router of run k2, first[k] = the first run with the same accepted router
+RunViol(ln, k, accs, first) ==
     LET run == ln.runs[k]
-        n   == Len(run.order)
-        acc == AccAfter(run, n)
-        \* the first run of this case that ended with the same accepted set
-        ref == CHOOSE k2 \in 1..k : /\ AccAfter(ln.runs[k2], Len(ln.runs[k2].order)) = acc
-                                    /\ \A k3 \in 1..(k2 - 1) : AccAfter(ln.runs[k3], Len(ln.runs[k3].order)) # acc
+        n   == Len(run.o)
+        acc == accs[k]
     IN
-       { <<"X", "bad-run-shape">> : x \in
-            IF n = Len(ln.regs) /\ { run.order[i] : i \in 1..n } = { ln.regs[i] : i \in 1..n } /\ Len(run.steps) = n
-               /\ Len(run.res) = Len(PortSeq) THEN {} ELSE {1} }
-  \cup { <<"C48", "ambiguous-refused">> : x \in
-            IF VERSION = "v2" /\ \E j \in 1..n : WouldBeAmbiguous(AccAfter(run, j - 1), run.order[j]) /\ run.steps[j] = "ok"
+       { <<"C48", "ambiguous-refused">> : x \in
+            IF VERSION = "v2" /\ \E j \in 1..n : WouldBeAmbiguous(AccAfter(ln, run, j - 1), ln.regs[run.o[j]]) /\ run.s[j] = 1
             THEN {1} ELSE {} }
   \cup { <<"C48", "one-match-per-port">> : x \in
             IF VERSION = "v2" /\ \E p \in Ports : Cardinality(Matches(acc, p)) > 1 THEN {1} ELSE {} }
-  \cup { <<"C48", "stable-lookup">> : x \in
-            IF \E q \in DOMAIN run.res : Len(run.res[q]) # 1 THEN {1} ELSE {} }
-  \cup { <<"C48", "order-independent">> : x \in
-            IF run.res # ln.runs[ref].res THEN {1} ELSE {} }
-  \cup { <<"CONF", "steps">> : x \in IF run.steps = SpecSteps(run.order) THEN {} ELSE {1} }
+  \cup { <<"C48", "stable-lookup">> : x \in IF run.u # <<>> THEN {1} ELSE {} }
+  \cup { <<"C48", "order-independent">> : x \in IF run.r # ln.runs[first[k]].r THEN {1} ELSE {} }
+  \cup { <<"CONF", "steps">> : x \in IF run.s = SpecSteps(OrderOf(ln, run)) THEN {} ELSE {1} }
   \cup { <<"CONF", "resolution">> : x \in
-            IF \A q \in DOMAIN run.res : run.res[q] = <<IdxOf(ln.regs, Route(acc, PortSeq[q]))>> THEN {} ELSE {1} }
+            IF \A q \in DOMAIN run.r : run.r[q] = IdxOf(ln.regs, Route(acc, PortSeq[q])) THEN {} ELSE {1} }
 
-Report(ln, k, viol) == \A v \in viol : PrintT(<<"MONFAIL", ln.tr, k, v>>)
+\* every value that is needed more than once is bound once through a set binder
+LineViol(ln) ==
+    IF \E k \in DOMAIN ln.runs : ~WellShaped(ln, ln.runs[k])
+    THEN { <<1, <<"X", "bad-run-shape">>>> }
+    ELSE UNION { UNION { UNION { { <<k, v>> : v \in RunViol(ln, k, accs, first) } : k \in DOMAIN ln.runs }
+                         : first \in { [k \in DOMAIN ln.runs |->
+                                          CHOOSE k2 \in 1..k : accs[k2] = accs[k] /\ \A k3 \in 1..(k2 - 1) : accs[k3] # accs[k]] } }
+                 : accs \in { [k \in DOMAIN ln.runs |-> AccAfter(ln, ln.runs[k], Len(ln.runs[k].o))] } }
 
 Init == l = 0
 
 Next == /\ l < Len(Trace)
-        /\ LET ln == Trace[l + 1] IN \A k \in DOMAIN ln.runs : Report(ln, k, RunViol(ln, k))
+        /\ LET ln == Trace[l + 1] IN \A kv \in LineViol(ln) : PrintT(<<"MONFAIL", ln.tr, kv[1], kv[2]>>)
         /\ l' = l + 1
         /\ (l + 1 = Len(Trace) => PrintT(<<"CONSUMED", l + 1>>))
 
